@@ -17,7 +17,8 @@ LEVEL_NOTE = ("Original elements must reappear bit for bit; interpolated / extra
 TECHNIQUE = "runtime post-condition monitor vs small definitional models for each helper, generated workloads"
 RULE = ("case = helper x array of 1..50 elements (float / int / list; non-uniform) x n in 1..16 x direction x explicit or "
         "default end values x interval size dividing or not dividing the length. non-trivial: result differs from the "
-        "input (n >= 2 or a proper extension / view); distinct by case index.")
+        "input (n >= 2 or a proper extension / view); distinct by case index."
+        " Also: object-level histories on one IntervalArray against a shadow list (views after writes, extensions, and writes through the array property / the wrapped ndarray / a second view), flags as numpy.bool_ / 0 / 1, documented defaults by omission.")
 HELPERS = ["oversample_linspace", "oversample_piecewise_constant", "extend_linspace", "extend_constant",
            "append_one_sample", "integrals", "sum_over_indices", "interval_getset", "interval_2d", "interval_closed",
            "interval_methods", "interval_object_history", "average", "round_trip"]
